@@ -35,6 +35,18 @@ type jop struct {
 	Fault    int      `json:"fault"`
 	FPanic   bool     `json:"fpanic"`
 	Route    string   `json:"route"`
+	Msgs     []jmsg   `json:"msgs"`
+}
+type jmsg struct {
+	Kind    string `json:"kind"`
+	A       int    `json:"a"`
+	AUp     bool   `json:"a_up"`
+	B       int    `json:"b"`
+	BUp     bool   `json:"b_up"`
+	Denom   int    `json:"denom"`
+	Amt     string `json:"amt"`
+	Months  uint32 `json:"months"`
+	Signers []int  `json:"signers"`
 }
 type scripted struct {
 	Note  string  `json:"note"`
@@ -56,6 +68,13 @@ func (s *scripted) ops() []op {
 		out[i] = op{kind: j.Kind, a: key{j.A, j.AUp}, b: key{j.B, j.BUp}, d: j.Denom, amt: amt, months: j.Months,
 			chain: j.Chain, contract: j.Contract, list: j.List, pairs: j.Pairs, dt: j.Dt,
 			fault: j.Fault, fpanic: j.FPanic, route: j.Route}
+		for _, m := range j.Msgs {
+			ma := big.NewInt(0)
+			if m.Amt != "" {
+				ma, _ = new(big.Int).SetString(m.Amt, 10)
+			}
+			out[i].msgs = append(out[i].msgs, txmsg{kind: m.Kind, a: key{m.A, m.AUp}, b: key{m.B, m.BUp}, d: m.Denom, amt: ma, months: m.Months, signers: m.Signers})
+		}
 	}
 	return out
 }
